@@ -193,3 +193,9 @@ Proof.
       destruct (validate_caps remoteAS cs found) as [f|n| |]; try contradiction; exact IH.
 Qed.
 
+
+Lemma cap_encode_as4' r : r < 4294967296 -> cap_encode (four_octet_cap r) = 65 :: 4 :: be32 r.
+Proof.
+  intros H. unfold cap_encode, four_octet_cap, c_CAP_FOUR_OCTET_AS; cbn [cap_code cap_val].
+  rewrite put32_be32 by assumption. reflexivity.
+Qed.
